@@ -3,9 +3,9 @@ import os, re, random
 import apigen, vlib, gen_tmpskel
 from genlib import *
 LEVEL = "proof"
-LEAN_MODULES = ["MpirProofs.Props.C04", "MpirProofs.Props.C04_tmp"]
+LEAN_MODULES = ["MpirProofs.Props.C04", "MpirProofs.Props.C04_tmp", "MpirProofs.Props.C04_tmpsound"]
 GEN = [gen_tmpskel.gen_tmpskel]
-THEOREMS = ["Mpir.Life.inv_init", "Mpir.Life.inv_step", "Mpir.Life.inv_run", "Mpir.Life.no_breach", "Mpir.Life.clearAll_empties_ledger", "Mpir.Life.realloc2_value", "Mpir.Life.set_value", "Mpir.TmpSkel.tmp_balanced"]
+THEOREMS = ["Mpir.Life.inv_init", "Mpir.Life.inv_step", "Mpir.Life.inv_run", "Mpir.Life.no_breach", "Mpir.Life.clearAll_empties_ledger", "Mpir.Life.realloc2_value", "Mpir.Life.set_value", "Mpir.TmpSkel.tmp_balanced", "Mpir.TmpSkel.balanced_sound", "Mpir.TmpSkel.tmp_paths_safe"]
 TRUSTED = ["tools/gen_tmpskel.py: clang-14 AST of every function using TMP_DECL with the TMP_* macros re-pointed at marker calls; control-flow skeleton construction (if/loops/switch/goto/return/noreturn calls)",
            "run-time monitors on the C side: recording allocator (exact old size on realloc/free, red zones, leak ledger), well-formedness check of every pool object after every call, ASan+UBSan build",
            "life-cycle/ledger model lean/Mpir/Model/Life.lean mirrors mpz/init.c, init2.c, realloc.c, realloc2.c, set.c, clear.c (tied by correspondence on value and _mp_alloc)"]
@@ -16,7 +16,7 @@ RULE = ("histories over a pool of 6 mpz / 3 mpq / 3 mpf variables: life-cycle hi
         "before every call — whose values must agree after every call; distinct = distinct histories")
 LEVEL_TEXT = ("Lean theorems: the life-cycle/ledger model keeps every object well formed and the ledger consistent over arbitrary operation histories (induction over the op list), never hands a wrong "
               "size to realloc/free, holds no block after clearing everything, and realloc2 changes a value only by clearing it when it no longer fits. The implementation is monitored over generated "
-              "histories of all public functions with a recording allocator, a well-formedness check after every call, a twin pool with minimal allocations (allocation-history independence) and an ASan/UBSan build.")
+              "histories of all public functions with a recording allocator, a well-formedness check after every call, a twin pool with minimal allocations (allocation-history independence) and an ASan build. Every function that uses TMP_DECL has its MARK/ALLOC/FREE control-flow skeleton regenerated from the source with clang on each run; a kernel-checked theorem says every skeleton is accepted by a data-flow procedure whose soundness over all paths (any number of loop iterations) is proved, so no path allocates unmarked or returns with a temporary outstanding.")
 LEVEL_NOTE = "Memory safety of code below the object abstraction (Toom scratch, FFT buffers, doprnt) is bounded sanitizer exploration, not proof."
 
 SKIP = re.compile(r"divexact|jacobi|legendre|remove|prime|miller|sizeinbase|set_num|set_den|mpq_set_ui|mpq_set_si|canonicalize|mpq_set_d$|trial_division|mpq_inv|get_d")
@@ -62,11 +62,40 @@ def calls(rng, table, n):
         if rng.random() < 0.1: yield "@seed %x" % rng.randrange(1, 100)
     yield "@done"
 
+def growth(rng, table):
+    """directed histories: values at limb boundaries whose result needs one more limb than the (pre-shrunk) destination has"""
+    B = 1 << 64
+    sig = {n: s for n, s, r in table}
+    yield "@reset"
+    k = rng.randrange(1, 5); m = rng.randrange(0, 64 * k)
+    specials = [B ** k - 1, -(B ** k - 1), B ** k, -(B ** k), -(B ** k - (1 << m)), B ** k - (1 << m), -(1 << (64 * k - 1)), (1 << (64 * k - 1)), -1, 1 - B ** k]
+    for slot in range(6): yield "@setz %x %s" % (slot, hx(rng.choice(specials)))
+    bits = [m, 64 * k - 1, 64 * k, 64 * k + 1, 0, 63, 64]
+    cands = []
+    for name in ("mpz_setbit", "mpz_clrbit", "mpz_combit"):
+        if name in sig: cands += ["@call %s %x %x" % (sbytes(name), rng.randrange(6), rng.choice(bits)) for _ in range(4)]
+    for name in ("mpz_com", "mpz_neg", "mpz_abs"):
+        if name in sig: cands += ["@call %s %x %x" % (sbytes(name), d, rng.randrange(6)) for d in range(2)]
+    for name in ("mpz_add_ui", "mpz_sub_ui", "mpz_mul_ui", "mpz_addmul_ui", "mpz_submul_ui"):
+        if name in sig: cands += ["@call %s %x %x %x" % (sbytes(name), rng.randrange(6), rng.randrange(6), rng.choice([1, 2, B - 1, 1 << 63])) for _ in range(2)]
+    for name in ("mpz_ui_sub",):
+        if name in sig: cands += ["@call %s %x %x %x" % (sbytes(name), rng.randrange(6), rng.choice([0, 1, B - 1]), rng.randrange(6)) for _ in range(2)]
+    for name in ("mpz_mul_2exp", "mpz_cdiv_q_2exp", "mpz_fdiv_q_2exp", "mpz_cdiv_r_2exp", "mpz_fdiv_r_2exp"):
+        if name in sig: cands += ["@call %s %x %x %x" % (sbytes(name), rng.randrange(6), rng.randrange(6), rng.choice([1, 63, 64, 65, m])) for _ in range(2)]
+    for name in ("mpz_add", "mpz_sub", "mpz_mul", "mpz_and", "mpz_ior", "mpz_xor", "mpz_addmul", "mpz_submul"):
+        if name in sig: cands += ["@call %s %x %x %x" % (sbytes(name), rng.randrange(6), rng.randrange(6), rng.randrange(6)) for _ in range(2)]
+    rng.shuffle(cands)
+    for c in cands[:25]:
+        yield c
+        if rng.random() < 0.3: yield "@setz %x %s" % (rng.randrange(6), hx(rng.choice(specials)))
+    yield "@done"
+
 def gen_ops(rng, tier, ctx=None):
     build = ctx.build if ctx else vlib.REPO
     table, _ = apigen.table(build)
     nl, nc = (300, 400) if tier == "quick" else (3000, 6000)
     for _ in range(nl): yield from lifecycle(rng)
+    for _ in range(nl): yield from growth(rng, table)
     for _ in range(nc): yield from calls(rng, table, rng.randrange(5, 60))
 
 def nontrivial(line):
@@ -95,3 +124,6 @@ def extra(ctx, cov):
         f.write("".join("# " + l + "\n" for l in err.split("\n")[:80]))
         f.write("\n".join(lines[start:k + 1]) + "\n")
     return [("sanitizer report at op %s: %s" % (lines[k] if k < len(lines) else "?", (err.strip().split("\n") or [""])[0][:300]), path)]
+
+# source pins: the C the Lean model mirrors (see tools/pins.py)
+PINS = [('mpz/init.c', None), ('mpz/init2.c', None), ('mpz/realloc.c', None), ('mpz/realloc2.c', None), ('mpz/set.c', None), ('mpz/clear.c', None)]
